@@ -532,7 +532,7 @@ def _c09_job(sp):
                 samples=samples, cls=sp['cls'])
 
 
-IO_OPS = ('s1', 's137', 's1500', 'update', 'reset')
+IO_OPS = ('s1', 's137', 's1500', 'sdrain', 'update', 'reset')
 
 
 def _io_apply(b, op, pool, group):
@@ -541,6 +541,14 @@ def _io_apply(b, op, pool, group):
         b.update(group)
     elif op == 'reset':
         b.reset()
+    elif op == 'sdrain':
+        # hand out exactly what is buffered: the proposal cache becomes empty
+        n = len(b.points)
+        if n:
+            if name == 'NautilusBound':
+                b.sample(n, pool=pool)
+            else:
+                b.sample(n)
     else:
         n = int(op[1:])
         if name == 'NautilusBound':
@@ -652,7 +660,7 @@ def run_C09(tier):
         specifications=len(specs), states_per_class=by_cls,
         update_history_depth=depth,
         explanation='(1) operation-history search on the incremental-update path: after an initial '
-                    'write, all sequences over {sample(1), sample(137), sample(1500), update, reset} '
+                    'write, all sequences over {sample(1), sample(137), sample(1500), sample(all buffered), update, reset} '
                     'up to the stated depth on unions and nautilus bounds; after every update the '
                     'group read back must equal a full write of the live bound; (2) every bound state of the C07 zoo (all classes, unit T/F, periodic or not, 0-2 '
                     'networks with non-default hyper-parameters, fresh / split / trimmed / partly '
